@@ -357,6 +357,61 @@ class ObserverWiring(Target):
         return []
 
 
+class ProducersProperty(Target):
+    """ComponentState.producers, the list stageIn subscribes to: every instantiated component a reference of the observer
+    resolves to -- AS THE GRAPH IS NOW.  The observer's own ComponentState may be created before its subject's (the order of
+    Stage.jobs() is not defined): a second look after the subject has been instantiated must find it (no answer survives from
+    an earlier look)."""
+    prop = 'C13'
+    name = 'ComponentState.producers'
+    file = 'python/experiment/runtime/workflow.py'
+    qualname = 'ComponentState.producers'
+    inline_class = {'this': ('python/experiment/runtime/workflow.py', 'ComponentState')}
+    compare_return = False
+    trusted = ["DataReference.true_reference_to_component_id (graph lookup)", "weakref to a live ComponentState"]
+    assumptions = ["2 references (subject of the same stage, producer of an earlier stage); each producer instantiated now, later, "
+                   "or never (restart from a later stage)"]
+
+    def setup(self, c):
+        when = {n: c.one_of('%s.instantiated' % n, ['already', 'later', 'never']) for n in ('stage1.subject', 'stage0.early')}
+        comps = {n: Obj('ComponentState:' + n) for n in when}
+        nodes = {}
+        for n in when:
+            nodes[n] = {'component': Extern('weakref()', lambda c, n=n: comps[n])} if when[n] == 'already' else {}
+        graph = Obj('nx', nodes=nodes)
+        refs = [Obj('dataref', true_reference_to_component_id=Extern('true_reference_to_component_id', lambda c, g, cid=cid: [cid]))
+                for cid in ((1, 'subject'), (0, 'early'))]
+        this = Obj('observer', log=NULLLOG, graph=graph, workflowGraph='wg',
+                   specification=Obj('spec', reference='stage1.observer', componentDataReferences=refs))
+        return State(args=[this], this=this, when=when, comps=comps, nodes=nodes)
+
+    def real_function(self):
+        import experiment.runtime.workflow as wf
+        return wf.ComponentState.producers.fget
+
+    def externs(self, c, st):
+        return {'traceback.print_exc': Extern('print_exc', lambda c: 'tb')}
+
+    def ensures(self, c, st, out):
+        if out.kind == 'raise':
+            return [('no-exception', False)]
+        first = list(out.value)
+        want_now = [st.comps[n] for n in ('stage1.subject', 'stage0.early') if st.when[n] == 'already']
+        cl = [('the-instantiated-producers-are-listed', len(first) == len(want_now) and all(a is b for a, b in zip(first, want_now)))]
+        # the producers that are created after the observer ...
+        for n in st.when:
+            if st.when[n] == 'later':
+                st.nodes[n]['component'] = Extern('weakref()', lambda c, n=n: st.comps[n])
+        again = list(st.this.producers)             # ... the REAL property once more, on the same object
+        want_later = [st.comps[n] for n in ('stage1.subject', 'stage0.early') if st.when[n] in ('already', 'later')]
+        cl.append(('a-producer-instantiated-later-is-found-by-the-next-look',
+                   len(again) == len(want_later) and all(a is b for a, b in zip(again, want_later))))
+        return cl
+
+    def cross_compare(self, *a):
+        return []
+
+
 class KillDelayExpires(Target):
     """'... or the configured kill delay expires': when the kill-after-producers-done timer fires (the closure `suicide`),
     the engine stops -- it is killed at once when no task is running, or the running task is killed (the controller step
@@ -538,5 +593,6 @@ class BoundedStop(Lemma):
                 ('no-retries-left-means-kill', Implies(And(step, pd, budget0 == r0 + 1, budget0 == 1), killed))]
 
 
-TARGETS = [TaskController(), ScheduleNextInstance(), NotifyProducersFinished(), MonitorIteration(), ObserverWiring(), KillDelayExpires(), ExitReasonAndKill()]
+TARGETS = [TaskController(), ScheduleNextInstance(), NotifyProducersFinished(), MonitorIteration(), ObserverWiring(), ProducersProperty(),
+           KillDelayExpires(), ExitReasonAndKill()]
 LEMMAS = [BoundedStop()]
